@@ -1,5 +1,5 @@
 ID = 'C06'
-CUTS = [r'^_ZN5phosg13string_printfB5cxx11EPKcz$', r'^_ZN5phosg8io_errorC[12]Ei$']
+CUTS = [r'^_ZN5phosg13string_printfB5cxx11EPKcz$', r'^_ZN5phosg8io_errorC[12]Ei$', r'^_ZN5phosg5fgetsB5cxx11EP8_IO_FILE$']
 UNITS = {'img': dict(wrap='wrap.cc', shim=True, new_block=128, per_harness={'h_ppm.c': {'new_block': 320}}, cxxflags=['-U_FORTIFY_SOURCE', '-D_FORTIFY_SOURCE=0'], cuts=CUTS, gen_defs=['VERIF_EXC_POOL=4'])}
 BOUNDS = ''
 STUBS = []
@@ -37,12 +37,12 @@ def queries(tier):
         if tlen is not None:
             defs['TLEN'] = tlen
         return dict(name='ppm_%s_%dx%da%d_cw%d%s' % (('colour_save', 'gray_decode', 'colour_load')[mode], W, H, A, CW, '' if tlen is None else '_cut%d' % tlen), unit='img', harness='h_ppm.c', defs=defs,
-                    unwind=max(W, H, 6) + 2, unwindset='in_bytes.0:%d,w_set_data.0:%d,verif_memset_loop.0:%d,X_fread.0:%d,X_fwrite.0:%d,verif_memcpy_loop.0:%d,harness.0:%d,harness.1:%d,harness.2:%d,harness.3:100,harness.4:100,put_str.0:40,put_dec.0:22,put_dec.1:22,fscanf_core.0:6,fscanf_core.1:22,snprintf_core.0:80,snprintf_core.1:22,snprintf_core.2:22,strlen.0:100,X_fgets.0:260' % (n, n, 260, n, 100, 260, 100, 100, 100),
+                    unwind=max(W, H, 8) + 2, unwindset='in_bytes.0:%d,w_set_data.0:%d,verif_memset_loop.0:%d,X_fread.0:%d,X_fwrite.0:%d,verif_memcpy_loop.0:%d,harness.0:%d,harness.1:%d,harness.2:%d,harness.3:100,harness.4:100,put_str.0:40,put_dec.0:22,put_dec.1:22,fscanf_core.0:6,fscanf_core.1:22,snprintf_core.0:80,snprintf_core.1:22,snprintf_core.2:22,strlen.0:100,X_fgets.0:260,X__ZN5phosg5fgetsB5cxx11EP8_IO_FILE.0:42,X__ZN5phosg5fgetsB5cxx11EP8_IO_FILE.1:42,memcmp.0:30,X_strtoull.0:4,X_strtoull.1:24' % (n, n, 260, n, 100, 260, 100, 100, 100),
                     timeout=900, mem_gb=8, object_bits=12, flags=FLAGS,
                     desc='%s, %dx%d, alpha=%d, %d-bit samples, %s: exception or identical' % (('colour PPM/PAM save: file == canonical Netpbm header + raw samples', 'grayscale PPM/PAM input: (g,g,g[,a]) expansion, memory safety', 'colour PPM/PAM load of the canonical file: identity')[mode], W, H, A, CW, 'every prefix that ends inside the samples (symbolic)' if tlen is None else 'prefix of %d bytes (inside the header)' % tlen),
                     bounds='image %dx%d, all sample bytes, every truncation length' % (W, H))
     if tier == 'quick':
-        qs += [ppm(0, 2, 2, 0, 8), ppm(2, 2, 2, 0, 8), ppm(2, 2, 2, 0, 8, 5),  ppm(2, 1, 2, 0, 16), ppm(2, 2, 1, 0, 64), ppm(2, 2, 1, 0, 64, 27), ppm(1, 2, 2, 0, 8), ppm(1, 1, 2, 0, 16)]
+        qs += [ppm(0, 2, 2, 0, 8), ppm(2, 2, 2, 0, 8), ppm(2, 2, 2, 0, 8, 5),  ppm(2, 1, 2, 0, 16), ppm(2, 2, 1, 0, 64), ppm(2, 2, 1, 0, 64, 27), ppm(1, 2, 2, 0, 8), ppm(1, 1, 2, 0, 16), ppm(2, 2, 1, 1, 8), ppm(1, 1, 2, 1, 8), ppm(0, 1, 1, 1, 16)]
     if tier == 'quick':
         qs += [bmpvar(2, 2, 24, 0, 0, 40), bmpvar(3, 2, 24, 0, 1, 40), bmpvar(2, 2, 32, 0, 0, 40), bmpvar(2, 2, 32, 3, 0, 124, 2), bmpvar(1, 2, 32, 3, 1, 108)]
     if tier == 'quick':
